@@ -133,6 +133,75 @@ class _LoopToComp(ast.NodeTransformer):
         return node
 
 
+def _first_evaluated(expr, name):
+    """is the (single) load of `name` in `expr` evaluated before anything that could have a side effect?
+    (left-to-right evaluation: operands / arguments before the operation or call itself)"""
+    state = {'found': False, 'impure': False}
+
+    def ev(e):
+        if state['found'] or state['impure']:
+            return
+        if isinstance(e, ast.Name):
+            if e.id == name and isinstance(e.ctx, ast.Load):
+                state['found'] = True
+            return
+        if isinstance(e, ast.Constant):
+            return
+        if isinstance(e, ast.Attribute):
+            ev(e.value)
+            return
+        if isinstance(e, ast.Call):
+            ev(e.func)
+            for a in e.args:
+                ev(a.value if isinstance(a, ast.Starred) else a)
+            for k in e.keywords:
+                ev(k.value)
+            if not state['found']:
+                state['impure'] = True
+            return
+        if isinstance(e, (ast.BoolOp, ast.IfExp, ast.Lambda, ast.ListComp, ast.SetComp, ast.DictComp, ast.GeneratorExp, ast.NamedExpr,
+                          ast.Await, ast.Yield, ast.YieldFrom)):
+            if any(isinstance(x, ast.Name) and x.id == name for x in ast.walk(e)):
+                state['impure'] = True      # conditional / deferred evaluation: not a plain substitution site
+            elif any(isinstance(x, ast.Call) for x in ast.walk(e)):
+                state['impure'] = True
+            return
+        for c in ast.iter_child_nodes(e):
+            if isinstance(c, ast.expr):
+                ev(c)
+    ev(expr)
+    return state['found'] and not state['impure']
+
+
+def _replace_name(stmt, name, value):
+    for parent in ast.walk(stmt):
+        for fld, val in ast.iter_fields(parent):
+            if isinstance(val, ast.Name) and val.id == name and isinstance(val.ctx, ast.Load):
+                setattr(parent, fld, value)
+                return
+            if isinstance(val, list):
+                for i, v in enumerate(val):
+                    if isinstance(v, ast.Name) and v.id == name and isinstance(v.ctx, ast.Load):
+                        val[i] = value
+                        return
+
+
+class _ForUnpackFold(ast.NodeTransformer):
+    """`for item in IT: a, b = item; ...` (item not used otherwise) -> `for a, b in IT: ...`"""
+
+    def visit_For(self, node):
+        self.generic_visit(node)
+        if isinstance(node.target, ast.Name) and node.body and isinstance(node.body[0], ast.Assign) and len(node.body[0].targets) == 1 and \
+                isinstance(node.body[0].targets[0], (ast.Tuple, ast.List)) and isinstance(node.body[0].value, ast.Name) and \
+                node.body[0].value.id == node.target.id and len(node.body) > 1:
+            item = node.target.id
+            uses = sum(1 for st in node.body[1:] + node.orelse for x in ast.walk(st) if isinstance(x, ast.Name) and x.id == item)
+            if uses == 0 and all(isinstance(e, ast.Name) for e in node.body[0].targets[0].elts):
+                node.target = node.body[0].targets[0]
+                node.body = node.body[1:]
+        return node
+
+
 class _InlineTemps(ast.NodeTransformer):
     """`t = E` directly followed by `return t` (or `x = t`), t bound once and read once in the function: -> `return E` (`x = E`).
     The temporary carries no information; with it gone `return f(x)` and `r = f(x); return r` are one form."""
@@ -154,6 +223,8 @@ class _InlineTemps(ast.NodeTransformer):
                 if isinstance(a, ast.Assign) and len(a.targets) == 1 and isinstance(a.targets[0], ast.Name) and b is not None:
                     t = a.targets[0].id
                     use = b.value if isinstance(b, (ast.Return, ast.Assign)) else None
+                    # only plain copies: merging the temporary into a larger expression would put two calls into one statement and
+                    # lose their order for the path rules (statement granularity)
                     if isinstance(use, ast.Name) and use.id == t and loads.get(t, 0) == 1 and stores.get(t, 0) == 1 and t not in params and \
                             not (isinstance(b, ast.Assign) and any(isinstance(x, ast.Name) and x.id == t for tg in b.targets for x in ast.walk(tg))):
                         b.value = a.value
@@ -183,6 +254,7 @@ class _InlineTemps(ast.NodeTransformer):
 def normalise_tree(tree):
     """syntactic normal forms applied to every module at parse time"""
     tree = _LowerIfExp().visit(tree)
+    tree = _ForUnpackFold().visit(tree)
     tree = _LoopToComp().visit(tree)
     tree = _InlineTemps().visit(tree)
     return ast.fix_missing_locations(tree)
